@@ -212,7 +212,7 @@ func (e *Engine) execInstr(st *State, b *ssa.BasicBlock, idx int, in ssa.Instruc
 		switch t := x.X.Type().Underlying().(type) {
 		case *types.Slice:
 			e.boundsCheck(st, in, iv, fmt.Sprintf("(sl_len %s)", xv.T), e.instrLabel(fr, in), false)
-			idx := e.arith("+", fmt.Sprintf("(sl_off %s)", xv.T), iv, tInt)
+			idx := e.slIdx(xv.T, iv)
 			fr.regs[x] = ptrVal(&Ptr{Kind: pElem, Ref: fmt.Sprintf("(sl_ref %s)", xv.T), Idx: idx, Root: t.Elem()}, x.Type())
 		case *types.Pointer:
 			at := t.Elem().Underlying().(*types.Array)
